@@ -297,6 +297,11 @@ def run_progress(case):
         n = int(rng.choice([0, 1, 2, 3, 9, 10, 11, 37, 120]))
         ikind = ["list", "tuple", "range", "ndarray", "generator", "source", "dict", "iterator", "source", "source"][int(rng.integers(0, 10))]
         items = [Obj(i) for i in range(n)]
+        if n and rng.random() < .25:
+            # items that a wrapper might mistake for "nothing": None, 0, '', False, an empty tuple - also in first place
+            falsy = [None, 0, "", False, (), 0.0]
+            items = [falsy[int(j)] if rng.random() < .5 else items[i] for i, j in enumerate(rng.integers(0, len(falsy), size=n))]
+            items[0] = falsy[int(rng.integers(0, len(falsy)))]
         src = None
         if ikind == "list":
             it = items
@@ -425,6 +430,8 @@ def slow_task(x):
 
 
 def task_value(x):
+    if x is None:
+        return None             # (a task whose result is None, also for the first item)
     if isinstance(x, (int, float, np.integer, np.floating)):
         return (x * x + 1, str(x))
     return (x, len(x))
@@ -449,7 +456,7 @@ def run_pmap(case):
         it = range(n)
         items = list(it)
     elif ikind == "generator":
-        items = list(range(n))
+        items = list(range(n)) if rng.random() < .5 else [None if i % 2 == 0 else i for i in range(n)]
         it = (x for x in items)
     elif ikind == "tuple-str":
         items = ["s%d" % i * (1 + i % 3) for i in range(n)]
